@@ -282,6 +282,7 @@ pub fn run(case: &Value) -> Vec<Value> {
             }
             "forced_cancel" => forced_cancel(),
             "forced_stop" => forced_stop(),
+            "co_join" => co_join(op),
             "race_submit" => race_submit(usize::try_from(as_u64(&op["threads"])).expect("threads"),
                                          usize::try_from(as_u64(&op["per"])).expect("per")),
             "running" => json!({"num": pools[p.expect("p")].get_running_size()}),
@@ -531,4 +532,79 @@ fn race_submit(threads: usize, per: usize) -> Value {
     let dup = runs.iter().filter(|c| c.load(Ordering::SeqCst) > 1).count();
     json!({"race_submit": {"submitted": n, "accepted": accepted, "once": once, "lost": lost, "dup": dup,
                            "left": pool.size()}})
+}
+
+/// C02, a wait made FROM a task (a task joining another task of its pool): `wait_task_result` on a
+/// coroutine runs queued tasks inline until the wanted result is there or the time is up.
+/// `queue`: outcomes of the tasks queued behind the waiter, in order; `fin`: outcomes of tasks that
+/// have finished before the waiter starts; `target`: [0 = in fin, 1 = in queue, 2 = unknown id, index].
+fn co_join(op: &Value) -> Value {
+    use std::sync::{Arc, Mutex};
+    verif::set_virtual_clock(None);
+    let pool: &'static mut CoroutinePool<'static> =
+        Box::leak(Box::new(CoroutinePool::new("ocvcojoin".to_string(), 256 * 1024, 0, 1, 0)));
+    let ran: Arc<Mutex<Vec<u64>>> = Arc::new(Mutex::new(Vec::new()));
+    let mk = |ix: u64, out: Value, ran: Arc<Mutex<Vec<u64>>>| {
+        move |_: Option<usize>| -> Option<usize> {
+            ran.lock().expect("ran").push(ix);
+            match out["k"].as_str().expect("out") {
+                "value" => Some(usize::try_from(as_u64(&out["v"])).expect("usize")),
+                "static" => {
+                    let m: &'static str = Box::leak(crate::areas::co::panic_text(as_u64(&out["m"])).into_boxed_str());
+                    std::panic::panic_any(m)
+                }
+                "owned" => std::panic::panic_any(crate::areas::co::panic_text(as_u64(&out["m"]))),
+                _ => std::panic::panic_any(42u32),
+            }
+        }
+    };
+    let mut fin_ids = Vec::new();
+    for (i, o) in op["fin"].as_array().expect("fin").iter().enumerate() {
+        let ix = 100 + i as u64;
+        fin_ids.push(pool.submit_task(Some(format!("cojoin-fin{i}")), mk(ix, o.clone(), ran.clone()), None, None).expect("submit"));
+    }
+    let t0 = std::time::Instant::now();
+    while pool.size() > 0 && t0.elapsed() < Duration::from_secs(3) {
+        let _ = pool.try_timed_schedule_task(Duration::from_millis(5));
+    }
+    let _ = pool.try_timed_schedule_task(Duration::from_millis(5));
+    ran.lock().expect("ran").clear();
+    let ids: Arc<Mutex<Vec<u64>>> = Arc::new(Mutex::new(Vec::new()));
+    let slot: Arc<Mutex<Option<Value>>> = Arc::new(Mutex::new(None));
+    let ran_at_return: Arc<Mutex<Vec<u64>>> = Arc::new(Mutex::new(Vec::new()));
+    let kind = as_u64(&op["target"][0]);
+    let tix = usize::try_from(as_u64(&op["target"][1])).expect("tix");
+    let wait_ms = as_u64(&op["wait_ms"]);
+    let pool_addr = std::ptr::from_ref::<CoroutinePool<'static>>(&*pool) as usize;
+    let (ids2, slot2, ran2, rar2, fin2) = (ids.clone(), slot.clone(), ran.clone(), ran_at_return.clone(), fin_ids.clone());
+    let _ = pool
+        .submit_task(Some("cojoin-waiter".to_string()), move |_| {
+            let pool = unsafe { &*(pool_addr as *const CoroutinePool<'static>) };
+            let id = match kind {
+                0 => fin2[tix],
+                1 => ids2.lock().expect("ids")[tix],
+                _ => 0x5eed_0000_0000_0001,
+            };
+            let r = match pool.wait_task_result(id, Duration::from_millis(wait_ms)) {
+                Ok(r) => json!({"val": tres_json(r)}),
+                Err(e) if e.kind() == std::io::ErrorKind::TimedOut => json!("timeout"),
+                Err(_) => json!("err"),
+            };
+            *rar2.lock().expect("rar") = ran2.lock().expect("ran").clone();
+            *slot2.lock().expect("slot") = Some(r);
+            Some(0)
+        }, None, None)
+        .expect("submit waiter");
+    for (i, o) in op["queue"].as_array().expect("queue").iter().enumerate() {
+        let id = pool.submit_task(Some(format!("cojoin-q{i}")), mk(i as u64, o.clone(), ran.clone()), None, None).expect("submit");
+        ids.lock().expect("ids").push(id);
+    }
+    let t0 = std::time::Instant::now();
+    while slot.lock().expect("slot").is_none() && t0.elapsed() < Duration::from_secs(5) {
+        let _ = pool.try_timed_schedule_task(Duration::from_millis(5));
+    }
+    let _ = take_log();
+    let r = slot.lock().expect("slot").clone();
+    let ran_during = ran_at_return.lock().expect("rar").clone();
+    json!({"co_join": {"wait": r, "ran": ran_during}})
 }
